@@ -13,7 +13,7 @@ from rv.harness import exact
 LEVEL = "exploration"
 RULE = ("every algorithm (11 partitioners, 5 packers, 3 coverers; exact ones inside the cost envelope) x generated inputs of the C01/C03/C05 classes; "
         "each case is executed with all 10 output types (every 15th case: ckk / snp / complete greedy on 9-11 items, full partition vs Sums / SortedSums only); non-trivial = at least two bins with different sums; distinct on (algorithm, config, size, value sequence)")
-ASSUMPTIONS = ["largest/smallest/extreme/difference are undefined for zero bins and skipped there", "bin-completion with list/array presentation (names: C07)"]
+ASSUMPTIONS = ["in situ: on every third case the contents-keeping manager's operations are hooked and each bins-array they touch is checked (sum of every bin == total value of its recorded items)", "largest/smallest/extreme/difference are undefined for zero bins and skipped there", "bin-completion with list/array presentation (names: C07)"]
 FLOORS = {"quick": {"distinct_nontrivial": 800}, "thorough": {"distinct_nontrivial": 4000}}
 SUMS_TYPES = ("Sums", "SortedSums", "LargestSum", "SmallestSum", "ExtremeSums", "Difference", "BinCount")
 
@@ -122,12 +122,35 @@ def draw(rng, i):
 
 
 def run_shard(spec, rng, ctx):
+    from rv.monitors import BinsInvariant
     end = C.budget(spec)
     i = 0
+    inv = BinsInvariant()
     while i < spec["max_cases"] and C.now() < end:
-        judge(draw(rng, i), ctx)
+        case = draw(rng, i)
+        if i % 3 == 0:
+            # in situ (M3 at the manager's own operations): every intermediate bins-array the real algorithm builds must have sums that describe its contents
+            inv.install()
+            try:
+                judge(case, ctx)
+            finally:
+                inv.uninstall()
+            for b in inv.take_broken():
+                ctx.violation("insitu_bins_array_inconsistent", case["alg"], case, b)
+            ctx.counters["insitu_monitored_cases"] += 1
+        else:
+            judge(case, ctx)
         i += 1
+    ctx.counters["insitu_bins_arrays_checked"] += sum(inv.checked.values())
+    ctx.reach.update({"binsinvariant." + k: v for k, v in inv.checked.items()})
 
 
 def replay(case, ctx):
-    judge(case, ctx)
+    from rv.monitors import BinsInvariant
+    inv = BinsInvariant().install()
+    try:
+        judge(case, ctx)
+    finally:
+        inv.uninstall()
+    for b in inv.take_broken():
+        ctx.violation("insitu_bins_array_inconsistent", case["alg"], case, b)
